@@ -87,18 +87,24 @@ class Tape:
         return Tape(seed=self.draw(1 << 62, label))
 
 
-def shrink(values, still_fails, budget=400):
+def shrink(values, still_fails, budget=400, seconds=None):
     """Minimise a decision list while ``still_fails(list)`` holds.
 
     Passes: delete blocks (8,4,2,1), zero entries, halve / decrement entries.
-    Deterministic; bounded by ``budget`` calls to still_fails.
+    Bounded by ``budget`` calls to still_fails (and optionally by wall time: the
+    result is then still a failing list, only less minimal).
     Returns (minimised list, calls used).
     """
+    import time as _time
+
     calls = 0
     best = list(values)
+    deadline = None if seconds is None else _time.time() + seconds
 
     def attempt(cand):
-        nonlocal calls, best
+        nonlocal calls, best, budget
+        if deadline is not None and _time.time() > deadline:
+            budget = calls  # stop all passes
         if calls >= budget:
             return False
         calls += 1
